@@ -135,7 +135,9 @@ pub fn single_clauses(thorough: bool) -> Vec<Clause> {
         out.extend(clauses_for(q, &lits, &UNOPS, &BINOPS, true));
     }
     let fbs = filter_bodies();
-    let fq = queries_filter(if thorough { &fbs[..] } else { &fbs[..4] });
+    // quick: the first four bodies and the one with a nested filter (a filter clause that SKIPs for an element)
+    let fb_quick: Vec<Cnf> = vec![fbs[0].clone(), fbs[1].clone(), fbs[2].clone(), fbs[3].clone(), fbs[5].clone()];
+    let fq = queries_filter(if thorough { &fbs[..] } else { &fb_quick[..] });
     let flits = vec![crate::val::i(1), crate::val::s("x"), crate::val::l(vec![crate::val::i(1)]), crate::val::l(vec![crate::val::i(1), crate::val::i(2)]), V::Null];
     let funops = [UnOp::Exists, UnOp::Empty, UnOp::IsStruct, UnOp::IsInt];
     let fbinops = [BinOp::Eq, BinOp::In, BinOp::Ge];
